@@ -77,7 +77,9 @@ func (t *timeScalar) CoerceOut(v interface{}) (interface{}, error) {
 	case int64:
 		tt = time.Unix(0, tv*int64(time.Second)).In(time.UTC)
 	case string:
-		tt, err = time.Parse(time.RFC3339Nano, tv)
+		if tt, err = time.Parse(time.RFC3339Nano, tv); err != nil {
+			v = nil
+		}
 	case time.Time:
 		tt = tv
 	default:
